@@ -110,9 +110,14 @@ class Program:
                 raise AnalysisError(f"syntax error in {name}: {e}")
         self.inlined = []
         if normalise_aliases:
-            from .inline import inline_new_helpers
+            from .inline import inline_new_helpers, undo_renames
             from .normalise import normalise
+            self.renamed = undo_renames(self.trees)
+            from .inline import propagate_new_constants
+            self.constants = propagate_new_constants(self.trees)
             self.inlined = inline_new_helpers(self.trees)
+            from .inline import localise_single_use_methods
+            self.localised = localise_single_use_methods(self.trees)
             for name in self.trees:
                 self.n_aliases = getattr(self, "n_aliases", 0) + normalise(self.trees[name])
         self.classes = {}  # name -> (ClassDef, module)
@@ -141,7 +146,7 @@ class Program:
             if isinstance(n, ast.ClassDef):
                 self._h[n.name] = [b.attr if isinstance(b, ast.Attribute) else getattr(b, "id", "?") for b in n.bases]
         self._cache = {}
-        self.stats = {"aliases_propagated": getattr(self, "n_aliases", 0), "helpers_inlined": self.inlined, "functions": len(self.functions), "classes": len(self.classes),
+        self.stats = {"aliases_propagated": getattr(self, "n_aliases", 0), "helpers_inlined": self.inlined, "renames_undone": getattr(self, "renamed", {}), "methods_localised": getattr(self, "localised", []), "constants_propagated": getattr(self, "constants", []), "functions": len(self.functions), "classes": len(self.classes),
                       "modules": sorted(self.trees), "ast_nodes": len(self.parent) + len(self.trees)}
 
     @classmethod
@@ -407,9 +412,23 @@ class Program:
         for s in fn.body:
             if isinstance(s, ast.Return) and isinstance(s.value, ast.Name) and s.value.id in nested:
                 return nested[s.value.id]
+            if isinstance(s, ast.Return) and isinstance(s.value, ast.Call):   # return functools.wraps(f)(wrapper)
+                for a in s.value.args:
+                    if isinstance(a, ast.Name) and a.id in nested:
+                        return nested[a.id]
         if len(nested) == 1:
             return next(iter(nested.values()))
         raise AnalysisError(f"wrapper function of decorator {self.qualname(fn)} not found")
+
+    def decorator_factory_parts(self, fn):
+        """for `def deco(arg): def decorator(f): def wrapper(...)` -> (decorator, wrapper); for a plain decorator -> (fn, wrapper)"""
+        inner = self.inner_wrapper(fn)
+        if any(isinstance(n, FuncT) for n in inner.body):
+            try:
+                return inner, self.inner_wrapper(inner)
+            except AnalysisError:
+                pass
+        return fn, inner
 
     def wrapped_param(self, deco_name):
         """name of the parameter holding the wrapped function"""
